@@ -487,6 +487,42 @@ func c11Drive(args []string) int {
 			sum.sample(M{"xml": text, "expr": genExpr()})
 		}
 	}
+	// documents in a single-byte encoding they name in their declaration (labels, aliases), with bytes from every
+	// region of the code page in text and attribute values: the string values are those the reference decodes
+	for di := 0; di < n/4; di++ {
+		label := []string{"ISO-8859-1", "iso-8859-1", "latin1", "US-ASCII", "windows-1252", "cp1252", "ISO-8859-9", "ISO-8859-15", "windows-1250", "KOI8-R", "ISO-8859-2"}[r.Intn(11)]
+		hi := func() string {
+			var b []byte
+			for k := 1 + r.Intn(4); k > 0; k-- {
+				b = append(b, []byte{0x80, 0x85, 0x93, 0x94, 0x96, 0x9f, 0xa0, 0xa4, 0xe9, 0xff, 'x', '1'}[r.Intn(12)])
+			}
+			return string(b)
+		}
+		var sb strings.Builder
+		sb.WriteString(`<?xml version="1.0" encoding="` + label + `"?><root>`)
+		for k := 2 + r.Intn(3); k > 0; k-- {
+			nm := []string{"a", "b", "c"}[r.Intn(3)]
+			sb.WriteString("<" + nm + ` k="` + hi() + `">` + hi() + "<b>" + hi() + "</b>" + hi() + "</" + nm + ">")
+		}
+		sb.WriteString("</root>")
+		text := sb.String()
+		sr, e := idr.NewXMLStreamReader(strings.NewReader(text), "/*")
+		xdoc, e2 := parseRefDOM(text)
+		if e != nil || e2 != nil {
+			if (e == nil) != (e2 == nil) {
+				events = append(events, M{"ev": "equal", "tr": len(events) + 1, "x": []string{fmt.Sprint("reader: ", e)}, "y": []string{fmt.Sprint("reference: ", e2)}, "xml": text, "expr": ".", "ctx": "."})
+				sum.Traces++
+			}
+			continue
+		}
+		rootElem, e := sr.Read()
+		if e != nil {
+			events = append(events, M{"ev": "equal", "tr": len(events) + 1, "x": []string{"NO-RECORD " + e.Error()}, "y": []string{"document"}, "xml": text, "expr": "/*", "ctx": "."})
+			sum.Traces++
+			continue
+		}
+		compareDoc(rootElem.Parent, xdoc, text, 6)
+	}
 	// the tree as a schema's xpaths meet it: streamed record by record (target /root/*), every record possibly with
 	// namespace declarations of its own; when record k is delivered the tree is the root with record k alone, and the
 	// reference is the DOM of exactly that document
